@@ -190,6 +190,9 @@ func runRenew(ctx *action.Context, tx action.RawTx) (bool, action.Response) {
 	}
 
 	// increase the expiry height & save domain
+	if expiryOverflows(domain.ExpireHeight, extend) {
+		return false, action.Response{Log: errTooManyBlocks.Error()}
+	}
 	domain.AddToExpire(extend)
 	domain.SetLastUpdatedHeight(ctx.Header.Height)
 
